@@ -96,6 +96,14 @@ def run_spec(spec, cfg, tier, seed):
     need = [r for r in res if r.verdict in ("undecided", "error") or (r.verdict == "refuted" and not r.replay_confirmed)]
     if need:
         found = native_search(spec, cfg, 200 if tier == "quick" else 2000, seed)
+        if any(r.ob.endswith("__crosscheck__") and r.verdict == "error" for r in need):
+            # the differential cross-check saw the real code behave differently from the exact-real symbolic run (float ties /
+            # rounding): a clause that FAILS natively on a concrete input is a violation whatever the symbolic verdict was
+            for r in res:
+                key = r.ob.split("/", 1)[1] if "/" in r.ob else None
+                if r.verdict == "discharged" and key in found:
+                    r.verdict, r.witness, r.replay_confirmed = "refuted", found[key], True
+                    r.detail = "discharged over the reals, but the real (float) code fails this clause on a concrete input found by native search after a cross-check discrepancy" + (" | " + r.detail if r.detail else "")
         for r in need:
             if r.ob.endswith("__crosscheck__"):
                 continue
